@@ -239,6 +239,8 @@ def apalache_inductive(module, workdir, init="BInit", ind_init="InvInit", nxt="B
         outs = []
         for i, length in ((init, 0), (ind_init, 1)):
             try:
+                if shutil.which("apalache-mc") is None:
+                    return "unavailable", "apalache-mc is not on PATH"
                 r = subprocess.run(["apalache-mc", "check", "--init=" + i, "--next=" + nxt, "--inv=" + inv, "--length=%d" % length, module + ".tla"],
                                    cwd=d, stdout=subprocess.PIPE, stderr=subprocess.STDOUT, text=True, timeout=timeout)
                 out = r.stdout
@@ -246,8 +248,9 @@ def apalache_inductive(module, workdir, init="BInit", ind_init="InvInit", nxt="B
                 out = "TIMEOUT"
             outs.append(out[-1500:])
             if "The outcome is: NoError" not in out:
-                return False, "\n".join(outs)
-        return True, "\n".join(outs)
+                # a definite counterexample is a refutation; anything else (tool missing, time-out, crash) only means the second engine did not run
+                return ("refuted" if "The outcome is: Error" in out else "unavailable"), "\n".join(outs)
+        return "ok", "\n".join(outs)
     finally:
         shutil.rmtree(d, ignore_errors=True)
 
